@@ -31,14 +31,14 @@ UNIT = Unit(
         Fn(SM, "get", impl="SmtMapping", mode="assume", wrap=SMT_WRAP, **smt_get()),
         Fn(T, "iter", impl="TransactionSet", mode="assume", sig_subst=[("impl Iterator<Item = &Transaction>", "Vec<&Transaction>")], **ts_iter()),
         Fn(M, "multiply_frac", home="C15", implicit_props=("C09", "C15"),
-           ensures=[C("floor", "res as int == spec_multiply_frac(x as int, frac@.n, frac@.d)", "C15", "C01")],
+           ensures=[C("floor", "res as int == spec_multiply_frac(x as int, frac@.n, frac@.d)", "C15", "C01", "C16")],
            uses="group_core_axioms, num::rational::axiom_ratio_den_pos, num::rational::axiom_reduced, num::rational::axiom_ratio_u128_nonneg",
            injects=[Inject("entry", "let ghost f0 = frac@; let ghost red = num::rational::reduced(frac);"),
                     Inject(("after_let", "result"), """proof { assert(result@.n == (x as int) * (red.0 as int)); assert(result@.d == 1 * (red.1 as int));
                         assert(red.0 as int * f0.d == f0.n * (red.1 as int));
                         lemma_floor_frac_eq(x as int, red.0 as int, red.1 as int, f0.n, f0.d); }""")]),
         Fn(M, "request_pool_key", home="C15", implicit_props=("C09", "C15"),
-           ensures=[C("canonical", "res == spec_req_key(data@)", "C15", "C01")]),
+           ensures=[C("canonical", "res == spec_req_key(data@)", "C15", "C01", "C16")]),
         Fn(M, "get_swap_transactions", home="C15", implicit_props=("C09", "C15"),
            requires=[C("wf", "state.coins.wf()")],
            ensures=[C("selected", "selected(state.transactions@, res@, swap_pred(*state))", "C15", "C01", "C16")],
